@@ -23,13 +23,19 @@ META = {
             "re-adding a template — also with identical source — is a load under the current configuration (readd_is_a_load); "
             "a template once found keeps source and compilation until removed, re-added or cleared (also across set_loader and "
             "configuration changes); templates() lists every name once; operations on one environment leave its clones/original "
-            "unchanged. State identity: ids come from one process-wide counter, so a macro stamped by one render is refused by "
+            "unchanged. Unwinding: a Value::from(Serde(x)) conversion left by a caught panic restores the thread's serialisation "
+            "flag whatever happened inside (caught_panic_restores_thread_state; the seeded '!panicking()' guard is refuted by "
+            "seeded_guard_leaves_thread_marked); a panicking loader leaves the store identical. State identity: ids come from one process-wide counter, so a macro stamped by one render is refused by "
             "every other render whatever thread it runs on (foreign_macro_rejected). source_tables_match_model re-checks against "
             "the current source: the load-time/run-time classification of every Environment::set_*, the TemplateConfig fields, the "
             "event order of both insert_cow arms, the lookup order of get, the tiers of remove/clear, the static atomic STATE_ID, "
-            "the derived Clones. The model is tied to /repo by random histories (length <= 30, up to three live environments) over "
+            "the derived Clones, every thread_local! of the crate, every Drop guard that restores one (condition = the guard's own flag "
+            "only) and the clearing of pooled codegen buffers. The model is tied to /repo by random histories (length <= 30, up to three live environments) over "
             "the operation alphabet of the quantifier plus every configuration setter, re-adds of identical sources, an impure "
-            "loader, un-normalised names and template handles held across modifications of a clone: after every step the "
+            "loader, a panicking loader, un-normalised names, template handles held across modifications of a clone, and 14 kinds "
+            "of operations that UNWIND and are caught on the same thread (context Serialize impl panics outermost/via render/nested/"
+            "inside a filter; panicking function, filter, test, object method, formatter, auto-escape callback, path-join callback, "
+            "loader at several points of a render) after which the reference environment lives on a fresh thread: after every step the "
             "get_template result (source + fingerprint of the real compilation), templates(), registries and both configurations "
             "of every live environment are compared with the Lean model, and get_template(n).render(ctx) for every name with a "
             "freshly built environment of the same value (templates placed in random tiers and order, each loaded under the "
@@ -55,8 +61,8 @@ META = {
                   "order (unspecified): only the multiset is compared.",
 }
 
-QUICK_HISTORIES = 8_000
-THOROUGH_CHUNKS = 12
+QUICK_HISTORIES = 5_000
+THOROUGH_CHUNKS = 18
 
 FAIL_RE = re.compile(r"FAIL([a-z-]+)\{([^}]*)\}")
 
@@ -66,7 +72,7 @@ def first_failure(oracle_steps):
         if s != "=":
             m = FAIL_RE.findall(s)
             # the most specific predicate first
-            order = {"failed-insert": 0, "isolation": 1, "handle": 2, "sticky": 3, "repeat": 4, "threads": 5, "fresh": 6}
+            order = {"thread-state": 0, "failed-insert": 1, "isolation": 2, "handle": 3, "sticky": 4, "repeat": 5, "threads": 6, "fresh": 7}
             m.sort(key=lambda x: order.get(x[0], 9))
             return i, (m[0] if m else ("unparsed", s))
     return None
@@ -176,7 +182,13 @@ def process(r, exe, out, shrunk_sites):
         for t, st, note in zip(toks, isteps, notes.split(" ")):
             tf = t.split(":")
             k = tf[0]
-            res = st.split("|")[0]
+            res = st.split("|")[0].split("~")[0]
+            if k == "pn":
+                r.hist["unwinding_op"][["ctx Serialize panics", "ctx Serialize panics (via render)", "nested conversion panics",
+                                        "function (top level)", "function (macro+capture)", "function (include in loop)",
+                                        "filter mid-output", "test in loop", "object method", "formatter",
+                                        "auto-escape callback (compile)", "path-join callback", "loader",
+                                        "conversion inside a filter"][int(tf[2])] + (" -> caught" if res == "panic" else " -> " + res)] += 1
             if k in ("ab", "ao"):
                 r.hist["add_result"]["ok" if res == "ok" else "compile-error"] += 1
                 key = (tf[1], tf[2])
@@ -298,8 +310,10 @@ def run(r):
                      "fetch_add on the process-wide STATE_ID is totally ordered (std atomics); no wrap-around within 2^64 states",
                      "a loader closure answers as a function of the name and of the modelled outside phase (no hidden state of its own)",
                      "rendering is a function of the compiled templates looked up, run-time configuration, registries and context (validated against a fresh environment, not proved)",
+                     "guards are dropped innermost first when a panic unwinds (Rust semantics); VALUE_HANDLES entries leaked by an unwound conversion are never read (handles are fresh; u32 wrap-around not modelled)",
                      "thread schedules are sampled (8 threads x 12 renders per phase; 14 variants per foreign-value case), not enumerated"]
-    r.regen_tables(["C15_SETTERS", "C15_TEMPLATE_CONFIG", "C15_INSERT_ARMS", "C15_GET_ORDER", "C15_REMOVE_CLEAR", "C15_STATE_ID", "C15_CLONE_DERIVES"])
+    r.regen_tables(["C15_SETTERS", "C15_TEMPLATE_CONFIG", "C15_INSERT_ARMS", "C15_GET_ORDER", "C15_REMOVE_CLEAR", "C15_STATE_ID", "C15_CLONE_DERIVES",
+                    "C15_THREAD_LOCALS", "C15_DROP_GUARDS", "C15_POOL_TAKE_CLEARS"])
     r.lean_prove("MJ.Props.C15", "MJ/Audit/C15.lean", extra_targets=["drive_c15"])
     exe = r.cargo_build("c15")
     if exe is None:
